@@ -83,11 +83,33 @@ static Str show(const std::vector<Str> &v)
     return o + "]";
 }
 
+// An exactly-sized heap block like vpbt::Exact, except that a zero-length
+// buffer is the one-past-the-end pointer of a 1-byte block: ASan gives a
+// zero-size allocation one addressable byte, which would hide a read of an
+// empty buffer.
+struct NBlk
+{
+    Exact e;
+    uint8_t *p;
+    size_t n;
+    explicit NBlk(size_t n_) : e(n_ ? n_ : 1), p(n_ ? e.p : e.p + 1), n(n_)
+    {
+        if (!n_)
+            e.p[0] = 0xEE;
+    }
+    NBlk(const void *src, size_t n_) : NBlk(n_)
+    {
+        if (n_)
+            memcpy(p, src, n_);
+    }
+    char *c() { return (char *)p; }
+};
+
 static const char FULL[12] = {'a', 'b', ' ', ',', '\t', '\n', '\r', '"', '\'', '/', '.', '\0'};
 
 static size_t gen_len(Src &s, size_t maxlen)
 {
-    switch (s.weighted({4, 3, 1}))
+    switch (s.weighted({3, 4, 2}))
     {
     case 0:
         return (size_t)s.range(0, (int64_t)std::min<size_t>(6, maxlen));
@@ -182,12 +204,12 @@ static void check_split_char(Case &c, const Str &d, char delim)
         c.known_hit(K_SPLIT_CHAR);
         Str padded = d;
         padded.push_back(delim ? '\0' : 'x');
-        Exact blk(padded.data(), padded.size());
+        NBlk blk(padded.data(), padded.size());
         got = igris::split(igris::buffer((const void *)blk.p, d.size()), delim);
     }
     else
     {
-        Exact blk(d.data(), d.size());
+        NBlk blk(d.data(), d.size());
         got = igris::split(igris::buffer((const void *)blk.p, d.size()), delim);
     }
     VP_CHECK(got == want, "split_char_value", "split(\"%s\",'%s') got %s want %s", esc(d).c_str(),
@@ -216,12 +238,12 @@ static void check_split_delims(Case &c, const Str &d, const Str &delims)
         c.known_hit(K_SPLIT_DELIMS_OOB);
         Str padded = d;
         padded.push_back('x'); // never a delimiter in this harness
-        Exact blk(padded.data(), padded.size());
+        NBlk blk(padded.data(), padded.size());
         got = igris::split(igris::buffer((const void *)blk.p, d.size()), delims.c_str());
     }
     else
     {
-        Exact blk(d.data(), d.size());
+        NBlk blk(d.data(), d.size());
         got = igris::split(igris::buffer((const void *)blk.p, d.size()), delims.c_str());
     }
     VP_CHECK(got == want, has_nul ? "split_delims_nul_value" : "split_delims_value",
@@ -335,7 +357,7 @@ static Str ref_trim(const Str &d)
 static void check_trim(Case &c, const Str &d)
 {
     (void)c;
-    Exact blk(d.data(), d.size());
+    NBlk blk(d.data(), d.size());
     Str got = igris::trim(igris::buffer((const void *)blk.p, d.size()));
     Str want = ref_trim(d);
     VP_CHECK(got == want, "trim_value", "trim(\"%s\") got \"%s\" want \"%s\"", esc(d).c_str(),
@@ -402,8 +424,8 @@ static void check_replace(Case &c, const Str &in, const Str &sub, const Str &rep
         c.known_hit(K_REPL_MAXSIZE); // replace_substrings never looks at maxsize
         maxsize = need;
     }
-    Exact bi(in.data(), in.size()), bs(sub.data(), sub.size()), br(rep.data(), rep.size());
-    Exact out(maxsize);
+    NBlk bi(in.data(), in.size()), bs(sub.data(), sub.size()), br(rep.data(), rep.size());
+    NBlk out(maxsize);
     memset(out.p, 0xAA, maxsize);
     replace_substrings(out.c(), maxsize, bi.c(), in.size(), bs.c(), sub.size(), br.c(), rep.size());
     // (a write beyond maxsize is an ASan failure before we get here)
@@ -422,7 +444,7 @@ static void check_replace(Case &c, const Str &in, const Str &sub, const Str &rep
 static void check_memmem(Case &c, const Str &hay, const Str &nd)
 {
     (void)c;
-    Exact bh(hay.data(), hay.size()), bn(nd.data(), nd.size());
+    NBlk bh(hay.data(), hay.size()), bn(nd.data(), nd.size());
     void *r = igris_memmem(bh.p, hay.size(), bn.p, nd.size());
     if (nd.empty() || hay.empty())
     {
@@ -456,7 +478,7 @@ static Str gen_needle(Src &s, const Str &hay, const char *al, size_t asz, size_t
             nd.back() = al[s.below(asz)]; // near miss
         return nd;
     }
-    size_t n = (size_t)s.range(0, (int64_t)maxn);
+    size_t n = (size_t)s.range(0, (int64_t)(s.chance(1, 8) ? maxn : std::min(maxn, hay.size())));
     Str nd(n, 'a');
     for (size_t i = 0; i < n; i++)
         nd[i] = al[s.below(asz)];
@@ -638,12 +660,12 @@ static void check_cmdargs(Case &c, const Str &d)
         c.known_hit(K_CMDARGS_OOB);
         Str padded = d;
         padded.push_back('\0');
-        Exact blk(padded.data(), padded.size());
+        NBlk blk(padded.data(), padded.size());
         got = igris::split_cmdargs(igris::buffer((const void *)blk.p, d.size()));
     }
     else
     {
-        Exact blk(d.data(), d.size());
+        NBlk blk(d.data(), d.size());
         got = igris::split_cmdargs(igris::buffer((const void *)blk.p, d.size()));
     }
     if (r.strict)
@@ -757,8 +779,8 @@ static void check_argvc_split(Case &c, const Str &d, int argcmax)
     (void)c;
     auto words = ref_words(d, is_ws);
     size_t want = std::min<size_t>(words.size(), (size_t)argcmax);
-    Exact blk(d.c_str(), d.size() + 1);
-    Exact av((size_t)argcmax * sizeof(char *));
+    NBlk blk(d.c_str(), d.size() + 1);
+    NBlk av((size_t)argcmax * sizeof(char *));
     memset(av.p, 0x5A, av.n);
     char **argv = (char **)av.p;
     int argc = argvc_internal_split(blk.c(), argv, argcmax);
@@ -798,8 +820,8 @@ static void check_argvc_split_n(Case &c, const Str &d, int argcmax)
         c.known_hit(K_ARGVC_N);
         img.push_back('x'); // a NUL or blank here makes igris walk on past it
     }
-    Exact blk(img.data(), img.size());
-    Exact av((size_t)argcmax * sizeof(char *));
+    NBlk blk(img.data(), img.size());
+    NBlk av((size_t)argcmax * sizeof(char *));
     memset(av.p, 0x5A, av.n);
     char **argv = (char **)av.p;
     int argc = argvc_internal_split_n(blk.c(), (int)d.size(), argv, argcmax);
@@ -976,13 +998,13 @@ static void check_shell(Case &c, int fn, const std::vector<Str> &names, size_t s
         return;
     }
 
-    Exact blk(line.c_str(), line.size() + 1);
+    NBlk blk(line.c_str(), line.size() + 1);
     g_lo = blk.c();
     g_hi = blk.c() + line.size() + 1;
     int ret = -777;
     int rc;
     const int OUTSZ = 7;
-    Exact out(OUTSZ);
+    NBlk out(OUTSZ);
 
     if (fn == MSH_EXEC || fn == MSH_TABLES)
     {
@@ -1104,7 +1126,7 @@ static void t_shell(Src &s, Case &c)
     static const char wsl[] = {' ', '\t', '\r', '\n'};
     static const char wl[] = {'a', 'b', '1', '"', '.', ','};
     size_t ntok;
-    switch (s.weighted({2, 5, 2}))
+    switch (s.weighted({1, 6, 2}))
     {
     case 0:
         ntok = 0;
@@ -1201,7 +1223,7 @@ static void check_creader(Case &c, const Str &d, Src *ops)
         img.push_back('\0');
         padded = true;
     }
-    Exact blk(img.data(), img.size());
+    NBlk blk(img.data(), img.size());
     const char *strt = blk.c(), *fini = blk.c() + d.size();
     struct creader r;
     creader_init(&r, strt, d.size());
